@@ -241,6 +241,31 @@ PROPS = {
                        "the receiver's byte sequence equals the sender's and is followed by end of stream after shutdown; submitted buffers come back identical; nothing is left pending; no ring leaks."),
         "level_note": "Stream half of C14. Datagram sockets (truncation, source address, MSG_TRUNC flag) and accept-exactly-once are not exercised by this check yet. The simulated kernel's fidelity is checked by running compio's own 217 tests on it (tools/fidelity.sh): all pass.",
     },
+    "C05": {
+        "title": "Cancellation is prompt, honest and local",
+        "engine": "K",
+        "package": "check-k",
+        "bin": "check-k",
+        "design_ref": "§4, §7 C05",
+        "technique": "deterministic simulation with fault injection: the real compio runtime, cancel tokens, ext wakers and io_uring driver on the simulated io_uring kernel and clock; generated sets of never-ready operations (recv on silent Unix sockets incl. several on one descriptor, pipe reads, accepts, multishot receives) each cancelled by a generated route (task drop, token, token fired before registration, fail-fast token, timeout) at a generated instant, neighbours that must still get their own data, data racing with the cancel; kernel faults (tiny submission/completion rings, lazy and reordered completions, early EINTR returns, partial submits); promptness, honesty, locality, quiescence (nothing left pending in the kernel) and blocked-forever oracles; choice-sequence minimisation and replay",
+        "tiers": {
+            "quick": {"runs": 400_000, "time_limit_s": 60},
+            "thorough": {"runs": 100_000_000, "time_limit_s": 1500},
+        },
+        "rule": K_RULE,
+        "real": K_REAL,
+        "stub": K_STUB,
+        "assumptions": K_ASSUME + [
+            "prompt = finished within 300 µs of simulated time after the cancellation instant (the loop needs a few enters to submit the AsyncCancel and see both completions)",
+            "a multishot stream under a fired token ends (None) instead of yielding a cancellation error; that is accepted as the cancelled outcome",
+            "on a shared descriptor at most one receiver expects data, and cancelled receivers there never race with data (bytes go to the oldest pending receive)",
+            "only the io_uring driver; the polling driver's cancel path is not explored by this check",
+        ],
+        "level_text": ("Seeded exploration of cancellation programs on the real runtime and io_uring driver over the simulated kernel: every cancelled victim finishes within the slack of its cancellation instant although its event never comes, "
+                       "with a cancellation error, Elapsed, or its genuine data (checked against what its peer wrote and when); no victim reports cancellation before anybody cancelled; neighbours (also on the same descriptor) finish with exactly their own data at their own time; "
+                       "after all tasks ended no operation is left pending in the kernel and the runtime never blocks in io_uring_enter with nothing that could wake it."),
+        "level_note": "Covers drop / token / late token / fail-fast / timeout routes against UnixStream recv, pipe read, TcpListener accept and read_multi. Connect and poll-fd victims and the polling driver are not covered.",
+    },
     "C09": {
         "title": "Timers never fire early and always fire",
         "engine": "K",
